@@ -626,10 +626,24 @@ func TestVerif_C07(t *testing.T) {
 		if rc.Monitor == "M-inject" && rc.Outer != nil {
 			c07Inject(r, l, g, model, rc.Init, *rc.Outer, rc.Inner, rc.Point, st)
 		} else {
-			// a recorded stress history cannot be re-executed deterministically; re-check the recorded history
+			// a recorded stress history cannot be re-executed deterministically: the recorded history is re-checked for
+			// information, and the stress workload is re-run (same shape, all yield profiles) against the current tree;
+			// only a freshly produced illegal history counts
 			if porcupine.CheckOperationsTimeout(model, c07ToPorcupine(rc.Init, rc.History), 60*time.Second) == porcupine.Illegal {
-				r.Violate("not-linearizable", "M-lin", "recorded history is not linearizable: "+truncate(c07Describe(rc.History), 1500), rc)
+				fmt.Println("replay: the recorded history is indeed not linearizable; re-running the stress workload")
 			}
+			sst := &c07StressStats{interleavings: map[uint64]bool{}, states: map[string]bool{}}
+			for _, prof := range c07Profiles() {
+				if yieldBuild {
+					setYieldHook(prof.f)
+				}
+				r.ParallelN(8, 8, func(l *Local) {
+					for i := 0; i < 40; i++ {
+						c07StressHistory(r, l, g, model, l.Rng, 8, 25, sst)
+					}
+				})
+			}
+			setYieldHook(nil)
 		}
 		r.merge(l)
 		r.Finish(0)
